@@ -301,13 +301,14 @@ func (s *Scanner) aliasParameter() token.Token {
 		s.err(ddperror.SYN_MALFORMED_ALIAS, s.currentRange(), "Invalider Parameter Name")
 	}
 
-	for !s.atEnd() && s.peek() != '>' {
+	// a parameter never spans lines, stopping at a line break keeps line and column correct
+	for !s.atEnd() && s.peek() != '>' && s.peek() != '\n' {
 		if !isAlphaNumeric(s.advance()) {
 			s.err(ddperror.SYN_MALFORMED_ALIAS, s.currentRange(), "Invalider Parameter Name")
 		}
 	}
 
-	if s.atEnd() {
+	if s.atEnd() || s.peek() == '\n' {
 		s.err(ddperror.SYN_MALFORMED_ALIAS, s.currentRange(), "Offener Parameter")
 	} else {
 		s.advance() // consume the closing >
